@@ -85,9 +85,9 @@ func cmdCheck(args []string) {
 	if s := os.Getenv("VERIF_SEED"); s != "" {
 		seed, _ = strconv.Atoi(s)
 	}
-	timeout := 45000
+	timeout := 90000
 	if *tier == "thorough" {
-		timeout = 180000
+		timeout = 300000
 	}
 	t0 := time.Now()
 	evPath := filepath.Join(*verif, "evidence", *prop+".json")
